@@ -1853,7 +1853,11 @@ func (ex *Exec) forbidCheck(fr *Frame, st *State, name string, site ssa.Instruct
 			}
 		}
 		if !ok {
+			n := len(ex.obls)
 			ex.oblige(st, "forbidden-call", ex.siteWhat(site), ex.tb.False, site, "call to "+name+" is not allowed here by the contract")
+			if len(ex.obls) > n && r.Props != nil {
+				ex.obls[n].Props = r.Props
+			}
 		}
 	}
 }
